@@ -1,11 +1,13 @@
 //go:build verif
 
-package vgen
+// Package vtwo holds harnesses that need two generated packages at once.
+package vtwo
 
 import (
 	"reflect"
 
 	"github.com/openconfig/ygot/ytypes"
+	"github.com/openconfig/ygot/zz_verif_gen/vgen"
 	"github.com/openconfig/ygot/zz_verif_gen/vgenw"
 )
 
@@ -16,10 +18,10 @@ import (
 func H_C17_twopkgs() {
 	i := symChoose("name", 3)
 	name := []string{"RED", "GREEN", "BLUE"}[i]
-	want := []E_V_Colour{V_Colour_RED, V_Colour_GREEN, V_Colour_BLUE}[i]
+	want := []vgen.E_V_Colour{vgen.V_Colour_RED, vgen.V_Colour_GREEN, vgen.V_Colour_BLUE}[i]
 	wantW := []vgenw.E_V_Colour{vgenw.V_Colour_RED, vgenw.V_Colour_GREEN, vgenw.V_Colour_BLUE}[i]
 	parse := func() {
-		v, err := ytypes.StringToType(reflect.TypeOf(E_V_Colour(0)), name)
+		v, err := ytypes.StringToType(reflect.TypeOf(vgen.E_V_Colour(0)), name)
 		symAssert(err == nil && v.Interface() == want, "a defined name parses to its own type's value")
 	}
 	parseW := func() {
